@@ -49,7 +49,7 @@ func TestVerif_C20_life(t *testing.T) {
 		"lives of one client: 4-14 events from {Client.SetCommonBasicAuth, Client.SetCommonBearerAuthToken, Client.R(), Request.SetBasicAuth, Request.SetBearerAuthToken on any request created so far - never sent, already sent, in flight -, one attempt of a request}; a request is sent again either by a second Send of the same Request or as retry attempts of one call (SetRetryCount + SetRetryHook; the events up to its next attempt, nested calls of other requests included, run INSIDE the hook); 1-4 requests per client, with or without user information in the URL, HTTP/1.1 and HTTP/2; the scripted lives come first: client credentials, request A sent, A given its own credentials (hook / between two sends), A sent again, a NEW request B sent - for basic/bearer at either level and both re-send mechanisms, plus two requests that both inherited before one of them is changed; answer = what the origin's net/http BasicAuth() and the bearer split recover from EVERY attempt, in order; model = Req.Auth.life .fresh (shared slices) = the value-only description (sharing_unobservable); non-trivial = a request-level setter on a request that was already sent")
 	r := s.Rand()
 	cnt := map[string]int{}
-	texts := []string{"", "a", ":", "a:b", "p w", `q"uo\te`, "ü€", "admin", "s3cret", "service", "s3cr:et/+", "alice", "tok", "client-token", "request-token", "t\x00k"}
+	texts := []string{"", "a", ":", "a:b", "p w", `q"uo\te`, "ü€", "admin", "s3cret", "service", "s3cr:et/+", "alice", "tok", "client-token", "request-token", "t\x00k", "Bearer abc", "bearer abc", "BEARER  x", "Basic QQ=="}
 	text := func() string {
 		if r.Intn(8) == 0 {
 			return verifh.RandBytes(r, 1+r.Intn(20), "abcXYZ019+/=:. -_~")
